@@ -181,7 +181,7 @@ def _one(args):
     wd = tlc.scratch_dir()
     try:
         r = tlc.run_monitor(tla, trace, workdir=wd)
-        got = set(f[0] for f in r.fails()) - {"DRIFT"}
+        got = set(f[0] for f in r.fails()) - {"DRIFT", "BEYOND"}
         return (name, sorted(got), sorted(want), bool(got & want))
     except tlc.TLCError as ex:
         return (name, ["<unconsumed>"], sorted(want), False)
